@@ -508,7 +508,37 @@ func (s *Sim) SyncInterest(u int, wName enc.Name, face uint64, active bool, seq 
 }
 
 // AdvertWire is router w's current advertisement as advertDataOnInterest would encode it.
-func (s *Sim) AdvertWire(w int) []byte { return s.Nodes[w].R.VerifRib().Advert().Encode().Join() }
+// It is produced by the REAL advertDataOnInterest: an Interest under w's advertisement data prefix is
+// handed to the router's handler and the content of the Data it replies with is returned.
+func (s *Sim) AdvertWire(w int) []byte {
+	nd := s.Nodes[w]
+	name := append(nd.Cfg.AdvertisementDataPrefix().Clone(), enc.NewVersionComponent(1))
+	sp := spec.Spec{}
+	ei, err := sp.MakeInterest(name, &ndn.InterestConfig{MustBeFresh: true, Lifetime: utils.IdPtr(4 * time.Second)}, nil, nil)
+	if err != nil {
+		panic("harness: MakeInterest: " + err.Error())
+	}
+	interest, _, err := sp.ReadInterest(enc.NewWireReader(ei.Wire))
+	if err != nil {
+		panic("harness: ReadInterest: " + err.Error())
+	}
+	var reply enc.Wire
+	nd.R.VerifAdvertDataOnInterest(ndn.InterestHandlerArgs{Interest: interest, Reply: func(wire enc.Wire) error {
+		reply = wire
+		return nil
+	}})
+	if reply == nil {
+		panic("harness: advertDataOnInterest did not reply")
+	}
+	data, _, err := sp.ReadData(enc.NewWireReader(reply))
+	if err != nil {
+		panic("harness: advertDataOnInterest replied with something that is not Data: " + err.Error())
+	}
+	if !data.Name().Equal(name) {
+		panic("harness: advertDataOnInterest replied with Data named " + data.Name().String())
+	}
+	return data.Content().Join()
+}
 
 // ReplyAdvert answers an advertisement fetch of router u with the given content through the REAL
 // Express callback (advertDataHandler: sequence check, ns.Advert = ..., go ribUpdate).
